@@ -13,6 +13,7 @@ CALLEE_SAVED = {RBX, RBP, R12, R13, R14, R15}
 SYSV_ARGS = [RDI, RSI, RDX, RCX, R8, R9]
 JCC = {0x84: "eq", 0x85: "ne", 0x87: "ugt", 0x83: "uge", 0x82: "ult", 0x86: "ule", 0x8f: "sgt", 0x8d: "sge", 0x8c: "slt", 0x8e: "sle"}
 ALU_MR = {0x01: "add", 0x09: "or", 0x21: "and", 0x29: "sub", 0x31: "xor"}
+ALU_RM = {0x03: "add", 0x0b: "or", 0x23: "and", 0x2b: "sub", 0x33: "xor"}
 GRP1 = {0: "add", 1: "or", 4: "and", 5: "sub", 6: "xor", 7: "cmp"}
 SHIFT = {0: "rol", 4: "shl", 5: "lshr", 7: "ashr"}
 
@@ -109,9 +110,34 @@ def decode(items):
         if b in ALU_MR:
             reg, rm = modrm()
             ins = Insn("alu", op=ALU_MR[b], w=w, dst=rm, src=("reg", reg), lock=lock)
+        elif b in ALU_RM:
+            reg, rm = modrm()
+            ins = Insn("alu", op=ALU_RM[b], w=w, dst=("reg", reg), src=rm, lock=lock)
         elif b == 0x39:
             reg, rm = modrm()
             ins = Insn("cmp", w=w, a=rm, b=("reg", reg))
+        elif b == 0x3b:
+            reg, rm = modrm()
+            ins = Insn("cmp", w=w, a=("reg", reg), b=rm)
+        elif b == 0x8d:
+            reg, rm = modrm()
+            if rm[0] != "mem":
+                raise Unsupported("lea with a register operand")
+            ins = Insn("lea", w=w, dst=("reg", reg), src=rm)
+        elif b == 0x63 and W:
+            reg, rm = modrm()
+            ins = Insn("movsx", w=32, dst=("reg", reg), src=rm, to=64)
+        elif b == 0x83:
+            ext, rm = modrm()
+            imm, _ = s.field(8)
+            ext &= 7
+            if ext not in GRP1:
+                raise Unsupported("83 /%d" % ext)
+            val = T.sext(w, imm)
+            if GRP1[ext] == "cmp":
+                ins = Insn("cmp", w=w, a=rm, b=("imm", val))
+            else:
+                ins = Insn("alu", op=GRP1[ext], w=w, dst=rm, src=("imm", val), lock=lock)
         elif b == 0x85:
             reg, rm = modrm()
             ins = Insn("test", w=w, a=rm, b=("reg", reg))
@@ -129,6 +155,12 @@ def decode(items):
             if b2 in (0xb6, 0xb7):
                 reg, rm = modrm()
                 ins = Insn("movzx", w=8 if b2 == 0xb6 else 16, dst=("reg", reg), src=rm)
+            elif b2 in (0xbe, 0xbf):
+                reg, rm = modrm()
+                ins = Insn("movsx", w=8 if b2 == 0xbe else 16, dst=("reg", reg), src=rm, to=w)
+            elif b2 == 0xaf:
+                reg, rm = modrm()
+                ins = Insn("imul2", w=w, dst=("reg", reg), src=rm)
             elif 0xc8 <= b2 <= 0xcf:
                 ins = Insn("bswap", w=64 if W else 32, dst=("reg", (b2 & 7) | (B << 3)))
             elif b2 in JCC:
@@ -180,6 +212,8 @@ def decode(items):
             if e == 0:
                 imm, _ = s.field(32)
                 ins = Insn("test", w=w, a=rm, b=("imm", T.sext(64, imm) if w == 64 else imm))
+            elif e == 2:
+                ins = Insn("not", w=w, dst=rm)
             elif e == 3:
                 ins = Insn("neg", w=w, dst=rm)
             elif e == 4:
@@ -343,6 +377,20 @@ def run(insns, m0):
                 m.flags = None
             elif mn == "neg":
                 _write(m, ins.dst, ins.w, T.neg(ins.w, _read(m, ins.dst, ins.w)))
+                m.flags = None
+            elif mn == "not":
+                if ins.dst[0] == "mem":
+                    raise Unsupported("read-modify-write on memory")
+                _write(m, ins.dst, ins.w, T.op("xor", ins.w, _read(m, ins.dst, ins.w), T.K(ins.w, (1 << ins.w) - 1)))
+            elif mn == "lea":
+                a = _addr(m, ins.src)
+                _write(m, ins.dst, ins.w, a if ins.w == 64 else T.trunc(ins.w, a))
+            elif mn == "movsx":
+                _write(m, ins.dst, ins.to, T.sext(ins.to, _read(m, ins.src, ins.w)))
+            elif mn == "imul2":
+                w = ins.w
+                _write(m, ins.dst, w, T.op("mul", w, _read(m, ins.dst, w), _read(m, ins.src, w)))
+                m.flags = None
             elif mn == "mul":
                 w = ins.w
                 a, b = _read(m, ("reg", RAX), w), _read(m, ins.src, w)
